@@ -1,1 +1,411 @@
-pub fn witnesses() -> Vec<crate::W> { vec![] }
+//! C03 witnesses: "execute always returns, within max_cycles, at a fixpoint or at the bound".  Wire into main.rs with
+//! `mod c03;` + `all.extend(c03::witnesses());`
+//!
+//! Reference (from the statement): a call makes passes over the rules (descending salience, ties in insertion order; a no-loop
+//! rule that has fired is no longer eligible; at most one rule of an activation group per pass) until a pass fires nothing or
+//! max_cycles passes were made.  Checked on every run (wall-clock timeout disabled, every call under a watchdog):
+//!   * the call returns Ok;  cycle_count <= max_cycles;  rules_fired == number of firings (callback invocations for
+//!     execute_with_callback, the reference's count for execute_at_time/execute) and the firing sequence / final facts are the
+//!     reference's;
+//!   * the number of passes actually made (counted independently by a never-true probe rule whose condition calls a registered
+//!     function) is the reference's: it stops before the bound exactly when a pass fired nothing; cycle_count ("reports a cycle
+//!     count") is read as that number of passes, the final pass that fired nothing included;
+//!   * when it stopped before the bound no still-eligible rule has a true condition on the final facts (conditions re-evaluated
+//!     by the reference on the engine's final facts).
+use rust_rule_engine::{ActionType, Condition, ConditionGroup, EngineConfig, Facts, KnowledgeBase, Operator, Rule, RustRuleEngine, Value};
+use std::collections::BTreeSet;
+use std::sync::atomic::{AtomicUsize, Ordering};
+use std::sync::{Arc, Mutex};
+
+fn guarded(secs: u64, f: fn(&Arc<Mutex<String>>) -> (bool, String)) -> (bool, String) {
+    let progress = Arc::new(Mutex::new(String::new()));
+    let p2 = progress.clone();
+    let (tx, rx) = std::sync::mpsc::channel();
+    std::thread::spawn(move || {
+        let r = std::panic::catch_unwind(std::panic::AssertUnwindSafe(|| f(&p2)));
+        let _ = tx.send(r);
+    });
+    match rx.recv_timeout(std::time::Duration::from_secs(secs)) {
+        Ok(Ok(r)) => r,
+        Ok(Err(_)) => (true, format!("panicked while processing: {}", progress.lock().map(|s| s.clone()).unwrap_or_default())),
+        Err(_) => (true, format!("did not return within {} s (normally < 10 ms per call) while processing: {}", secs, progress.lock().map(|s| s.clone()).unwrap_or_default())),
+    }
+}
+
+/// facts: n, t (integers), f, g (booleans)
+#[derive(Clone, Copy, Debug, PartialEq)]
+struct St {
+    n: i64,
+    t: i64,
+    f: bool,
+    g: bool,
+}
+
+#[derive(Clone, Copy, Debug, PartialEq)]
+enum Tpl {
+    Inc3,       // when n < 3 then n = n + 1          self-triggering, stops by itself
+    IncForever, // when n >= 0 then n = n + 1         self-triggering for ever
+    Ping,       // when t == 0 then t = 1             } trigger each other for ever
+    Pong,       // when t == 1 then t = 0             }
+    Idle,       // when n >= 0 then <nothing>         empty action list, true on every pass
+    Never,      // when n < 0 then n = 100
+    Once,       // when f == false then f = true
+    After,      // when f == true then g = true       triggered by Once, then true for ever
+    Dec,        // when n > 1 && g == false then n = n - 1      oscillates with Inc3
+}
+const TPLS: [Tpl; 9] = [Tpl::Inc3, Tpl::IncForever, Tpl::Ping, Tpl::Pong, Tpl::Idle, Tpl::Never, Tpl::Once, Tpl::After, Tpl::Dec];
+
+impl Tpl {
+    fn text(&self) -> &'static str {
+        match self {
+            Tpl::Inc3 => "when n < 3 then n = n + 1",
+            Tpl::IncForever => "when n >= 0 then n = n + 1",
+            Tpl::Ping => "when t == 0 then t = 1",
+            Tpl::Pong => "when t == 1 then t = 0",
+            Tpl::Idle => "when n >= 0 then <no actions>",
+            Tpl::Never => "when n < 0 then n = 100",
+            Tpl::Once => "when f == false then f = true",
+            Tpl::After => "when f == true then g = true",
+            Tpl::Dec => "when n > 1 && g == false then n = n - 1",
+        }
+    }
+    // reference
+    fn holds(&self, s: &St) -> bool {
+        match self {
+            Tpl::Inc3 => s.n < 3,
+            Tpl::IncForever => s.n >= 0,
+            Tpl::Ping => s.t == 0,
+            Tpl::Pong => s.t == 1,
+            Tpl::Idle => s.n >= 0,
+            Tpl::Never => s.n < 0,
+            Tpl::Once => !s.f,
+            Tpl::After => s.f,
+            Tpl::Dec => s.n > 1 && !s.g,
+        }
+    }
+    fn run(&self, s: &mut St) {
+        match self {
+            Tpl::Inc3 | Tpl::IncForever => s.n += 1,
+            Tpl::Ping => s.t = 1,
+            Tpl::Pong => s.t = 0,
+            Tpl::Idle => {}
+            Tpl::Never => s.n = 100,
+            Tpl::Once => s.f = true,
+            Tpl::After => s.g = true,
+            Tpl::Dec => s.n -= 1,
+        }
+    }
+    // the real rule
+    fn condition(&self) -> ConditionGroup {
+        let c = |f: &str, op: Operator, v: Value| ConditionGroup::single(Condition::new(f.to_string(), op, v));
+        match self {
+            Tpl::Inc3 => c("n", Operator::LessThan, Value::Integer(3)),
+            Tpl::IncForever => c("n", Operator::GreaterThanOrEqual, Value::Integer(0)),
+            Tpl::Ping => c("t", Operator::Equal, Value::Integer(0)),
+            Tpl::Pong => c("t", Operator::Equal, Value::Integer(1)),
+            Tpl::Idle => c("n", Operator::GreaterThanOrEqual, Value::Integer(0)),
+            Tpl::Never => c("n", Operator::LessThan, Value::Integer(0)),
+            Tpl::Once => c("f", Operator::Equal, Value::Boolean(false)),
+            Tpl::After => c("f", Operator::Equal, Value::Boolean(true)),
+            Tpl::Dec => ConditionGroup::and(c("n", Operator::GreaterThan, Value::Integer(1)), c("g", Operator::Equal, Value::Boolean(false))),
+        }
+    }
+    fn actions(&self) -> Vec<ActionType> {
+        let set = |f: &str, v: Value| ActionType::Set { field: f.to_string(), value: v };
+        match self {
+            Tpl::Inc3 | Tpl::IncForever => vec![set("n", Value::Expression("n + 1".into()))],
+            Tpl::Ping => vec![set("t", Value::Integer(1))],
+            Tpl::Pong => vec![set("t", Value::Integer(0))],
+            Tpl::Idle => vec![],
+            Tpl::Never => vec![set("n", Value::Integer(100))],
+            Tpl::Once => vec![set("f", Value::Boolean(true))],
+            Tpl::After => vec![set("g", Value::Boolean(true))],
+            Tpl::Dec => vec![set("n", Value::Expression("n - 1".into()))],
+        }
+    }
+}
+
+#[derive(Clone, Debug)]
+struct RuleD {
+    name: String,
+    tpl: Tpl,
+    no_loop: bool,
+    act: bool, // member of activation group "ag"
+    sal: i32,
+}
+fn describe(rs: &[RuleD]) -> String {
+    rs.iter()
+        .map(|r| format!("{}[salience {}{}{}: {}]", r.name, r.sal, if r.no_loop { ", no-loop" } else { "" }, if r.act { ", activation-group ag" } else { "" }, r.tpl.text()))
+        .collect::<Vec<_>>()
+        .join(" ")
+}
+
+struct Sim {
+    fired: Vec<String>,
+    passes: usize,
+    end: St,
+    fired_no_loop: BTreeSet<String>,
+}
+fn simulate(rules: &[RuleD], start: St, max_cycles: usize) -> Sim {
+    let mut s = start;
+    let mut fired = vec![];
+    let mut done: BTreeSet<String> = BTreeSet::new();
+    let mut passes = 0;
+    let mut order: Vec<usize> = (0..rules.len()).collect();
+    order.sort_by(|a, b| rules[*b].sal.cmp(&rules[*a].sal).then(a.cmp(b)));
+    for _ in 0..max_cycles {
+        passes += 1;
+        let mut any = false;
+        let mut group_fired = false;
+        for k in &order {
+            let r = &rules[*k];
+            if (r.no_loop && done.contains(&r.name)) || (r.act && group_fired) {
+                continue;
+            }
+            if r.tpl.holds(&s) {
+                r.tpl.run(&mut s);
+                fired.push(r.name.clone());
+                any = true;
+                if r.no_loop {
+                    done.insert(r.name.clone());
+                }
+                if r.act {
+                    group_fired = true;
+                }
+            }
+        }
+        if !any {
+            break;
+        }
+    }
+    Sim { fired, passes, end: s, fired_no_loop: done }
+}
+
+fn read_state(facts: &Facts) -> Option<St> {
+    let n = match facts.get("n") {
+        Some(Value::Integer(x)) => x,
+        Some(Value::Number(x)) if x.fract() == 0.0 => x as i64,
+        _ => return None,
+    };
+    let t = match facts.get("t") {
+        Some(Value::Integer(x)) => x,
+        _ => return None,
+    };
+    let f = match facts.get("f") {
+        Some(Value::Boolean(x)) => x,
+        _ => return None,
+    };
+    let g = match facts.get("g") {
+        Some(Value::Boolean(x)) => x,
+        _ => return None,
+    };
+    Some(St { n, t, f, g })
+}
+
+#[derive(Clone, Copy, PartialEq, Debug)]
+enum Path {
+    Callback, // execute_with_callback, with the pass-counting probe rule
+    AtTime,   // execute_at_time, the rule set exactly as given
+    Plain,    // execute
+}
+
+fn check_run(rules: &[RuleD], start: St, max_cycles: usize, path: Path) -> Option<String> {
+    let kb = KnowledgeBase::new("c03");
+    for r in rules {
+        let mut rule = Rule::new(r.name.clone(), r.tpl.condition(), r.tpl.actions()).with_salience(r.sal).with_no_loop(r.no_loop);
+        if r.act {
+            rule = rule.with_activation_group("ag".to_string());
+        }
+        kb.add_rule(rule).unwrap();
+    }
+    let probe_count = Arc::new(AtomicUsize::new(0));
+    if path == Path::Callback {
+        // never fires; its condition is evaluated once per pass
+        kb.add_rule(Rule::new("probe".into(), ConditionGroup::single(Condition::with_function("probe".into(), vec![], Operator::Equal, Value::Boolean(true))), vec![]).with_salience(1000)).unwrap();
+    }
+    let mut engine = RustRuleEngine::with_config(kb, EngineConfig { max_cycles, timeout: None, enable_stats: false, debug_mode: false });
+    if path == Path::Callback {
+        let pc = probe_count.clone();
+        engine.register_function("probe", move |_, _| {
+            pc.fetch_add(1, Ordering::SeqCst);
+            Ok(Value::Boolean(false))
+        });
+    }
+    let facts = Facts::new();
+    facts.set("n", Value::Integer(start.n));
+    facts.set("t", Value::Integer(start.t));
+    facts.set("f", Value::Boolean(start.f));
+    facts.set("g", Value::Boolean(start.g));
+    let sim = simulate(rules, start, max_cycles);
+    let ctx = || format!("rules (in insertion order) {}; facts n={} t={} f={} g={}; max_cycles {}, timeout none, {:?}", describe(rules), start.n, start.t, start.f, start.g, max_cycles, path);
+    let calls: Arc<Mutex<Vec<String>>> = Arc::new(Mutex::new(vec![]));
+    let res = match path {
+        Path::Callback => {
+            let c2 = calls.clone();
+            engine.execute_with_callback(&facts, move |n, _| c2.lock().unwrap().push(n.to_string()))
+        }
+        Path::AtTime => {
+            let when = Rule::new("t".into(), Tpl::Idle.condition(), vec![]).with_date_effective_str("2030-06-01T00:00:00Z").unwrap().date_effective.unwrap();
+            engine.execute_at_time(&facts, when)
+        }
+        Path::Plain => engine.execute(&facts),
+    };
+    let res = match res {
+        Ok(r) => r,
+        Err(e) => return Some(format!("{}: returned Err({})", ctx(), e)),
+    };
+    if res.cycle_count > max_cycles {
+        return Some(format!("{}: cycle_count = {} > max_cycles", ctx(), res.cycle_count));
+    }
+    let firings = if path == Path::Callback {
+        let calls = calls.lock().unwrap().clone();
+        if calls != sim.fired {
+            return Some(format!("{}: fired {:?}, expected {:?}", ctx(), calls, sim.fired));
+        }
+        calls.len()
+    } else {
+        sim.fired.len()
+    };
+    if res.rules_fired != firings {
+        return Some(format!("{}: rules_fired = {}, number of firings = {}", ctx(), res.rules_fired, firings));
+    }
+    let end = match read_state(&facts) {
+        Some(e) => e,
+        None => return Some(format!("{}: final facts unreadable: n={:?} t={:?} f={:?} g={:?}", ctx(), facts.get("n"), facts.get("t"), facts.get("f"), facts.get("g"))),
+    };
+    if end != sim.end {
+        return Some(format!("{}: final facts {:?}, expected {:?} (firing sequence {:?})", ctx(), end, sim.end, sim.fired));
+    }
+    if path == Path::Callback {
+        let passes = probe_count.load(Ordering::SeqCst);
+        if passes > max_cycles {
+            return Some(format!("{}: made {} passes > max_cycles", ctx(), passes));
+        }
+        if passes != sim.passes {
+            return Some(format!(
+                "{}: made {} passes, expected {} ({})",
+                ctx(),
+                passes,
+                sim.passes,
+                if sim.passes < max_cycles { "stop after the first pass that fires nothing" } else { "every pass up to the bound fires a rule" }
+            ));
+        }
+        if res.cycle_count != passes {
+            return Some(format!("{}: cycle_count = {} but {} passes were made", ctx(), res.cycle_count, passes));
+        }
+    } else if res.cycle_count != sim.passes {
+        return Some(format!("{}: cycle_count = {}, expected {} passes", ctx(), res.cycle_count, sim.passes));
+    }
+    // fixpoint when it stopped before the bound
+    if res.cycle_count < max_cycles {
+        for r in rules {
+            let eligible = !(r.no_loop && sim.fired_no_loop.contains(&r.name));
+            if eligible && r.tpl.holds(&end) {
+                return Some(format!("{}: stopped after {} passes with final facts {:?}, on which the still-eligible rule {} has a true condition", ctx(), res.cycle_count, end, r.name));
+            }
+        }
+    }
+    None
+}
+
+fn variants() -> Vec<(Tpl, bool, bool)> {
+    let mut v = vec![];
+    for t in TPLS {
+        for nl in [false, true] {
+            v.push((t, nl, false));
+            if matches!(t, Tpl::Inc3 | Tpl::Idle | Tpl::Once) {
+                v.push((t, nl, true));
+            }
+        }
+    }
+    v
+}
+
+/// rule sets of 1..3 rules x max_cycles 0..4
+fn c03_cycle_bound_fixpoint_search_inner(progress: &Arc<Mutex<String>>) -> (bool, String) {
+    let vars = variants();
+    let starts = [St { n: 0, t: 0, f: false, g: false }, St { n: 2, t: 1, f: true, g: false }];
+    let mut tried = 0u64;
+    let mut sets: Vec<Vec<usize>> = vec![];
+    for a in 0..vars.len() {
+        sets.push(vec![a]);
+        for b in a + 1..vars.len() {
+            sets.push(vec![a, b]);
+            for c in b + 1..vars.len() {
+                sets.push(vec![a, b, c]);
+            }
+        }
+    }
+    sets.sort_by_key(|s| s.len()); // smallest rule sets first, so that a reported input is small
+    for (si, set) in sets.iter().enumerate() {
+        // two salience patterns: all tied (insertion order decides) / ascending (the rule added last goes first)
+        for pattern in 0..2 {
+            if pattern == 1 && set.len() == 1 {
+                continue;
+            }
+            let rules: Vec<RuleD> = set
+                .iter()
+                .enumerate()
+                .map(|(k, v)| RuleD { name: format!("r{}", k), tpl: vars[*v].0, no_loop: vars[*v].1, act: vars[*v].2, sal: if pattern == 0 { 0 } else { k as i32 - 1 } })
+                .collect();
+            for (sti, start) in starts.iter().enumerate() {
+                if sti == 1 && set.len() == 3 && si % 4 != 0 {
+                    continue;
+                }
+                for max_cycles in 0..=4usize {
+                    // the callback route (with the pass probe) always; the other two routes alternate
+                    let other = if (si + max_cycles) % 2 == 0 { Path::AtTime } else { Path::Plain };
+                    for path in [Path::Callback, other] {
+                        *progress.lock().unwrap() = format!("{}; start {:?}; max_cycles {}; {:?}", describe(&rules), start, max_cycles, path);
+                        tried += 1;
+                        if let Some(bad) = check_run(&rules, *start, max_cycles, path) {
+                            return (true, bad);
+                        }
+                    }
+                }
+            }
+        }
+    }
+    (false, format!("{} runs: every set of 1..3 rules from 24 variants (self-triggering, mutually triggering, empty action list, never true, once, chained; with/without no-loop; activation group), tied and ascending saliences, 2 start states, max_cycles 0..4, execute_with_callback + execute_at_time/execute", tried))
+}
+fn c03_cycle_bound_fixpoint_search() -> (bool, String) {
+    guarded(40, c03_cycle_bound_fixpoint_search_inner)
+}
+
+/// larger bounds: single rules and pairs with max_cycles in {5, 7, 63, 64}
+fn c03_large_bound_search_inner(progress: &Arc<Mutex<String>>) -> (bool, String) {
+    let vars = variants();
+    let start = St { n: 0, t: 0, f: false, g: false };
+    let mut tried = 0u64;
+    for a in 0..vars.len() {
+        for b in a..vars.len() {
+            let mut rules = vec![RuleD { name: "r0".into(), tpl: vars[a].0, no_loop: vars[a].1, act: vars[a].2, sal: 0 }];
+            if b > a {
+                rules.push(RuleD { name: "r1".into(), tpl: vars[b].0, no_loop: vars[b].1, act: vars[b].2, sal: 1 });
+            }
+            for max_cycles in [5usize, 7, 63, 64] {
+                if b > a && (max_cycles == 7 || max_cycles == 63) && (a + b) % 3 != 0 {
+                    continue;
+                }
+                for path in [Path::Callback, Path::AtTime] {
+                    *progress.lock().unwrap() = format!("{}; max_cycles {}; {:?}", describe(&rules), max_cycles, path);
+                    tried += 1;
+                    if let Some(bad) = check_run(&rules, start, max_cycles, path) {
+                        return (true, bad);
+                    }
+                }
+            }
+        }
+    }
+    (false, format!("{} runs: every rule and pair of rules from the 24 variants with max_cycles in {{5, 7, 63, 64}}", tried))
+}
+fn c03_large_bound_search() -> (bool, String) {
+    guarded(40, c03_large_bound_search_inner)
+}
+
+pub fn witnesses() -> Vec<crate::W> {
+    vec![
+        ("c03_cycle_bound_fixpoint_search", c03_cycle_bound_fixpoint_search),
+        ("c03_large_bound_search", c03_large_bound_search),
+    ]
+}
